@@ -39,3 +39,24 @@ Print Assumptions C01_lww_refuted.
 Theorem C01_oracle_decides : forall ws k v, is_latest ws k v (latest_at ws k v).
 Proof. exact latest_at_is_latest. Qed.
 Print Assumptions C01_oracle_decides.
+
+(** Last-writer-wins for whole histories of writes, memtable rotations and
+    flushes (any length): the invariant of [C01_reads_latest] holds initially
+    and is preserved by each step (Proofs/LsmPreserve.v).  [puts_monotone]:
+    each write has a positive version, a fresh larger acknowledgement index and
+    is at least as recent as the earlier writes of its key — true of every
+    plain-API history (equal sentinel versions). *)
+From NoKV Require Import Proofs.LsmInv Proofs.LsmPreserve.
+
+Theorem C01_lww_memtables_l0 : forall m ops,
+  forallb mlf_op ops = true -> puts_monotone ops = true ->
+  forall k v, get (run (init m) ops) k v = latest_at (writes ops) k v.
+Proof. exact lww_memtables_l0. Qed.
+Print Assumptions C01_lww_memtables_l0.
+
+(** The same with close + reopen steps anywhere in the history. *)
+Theorem C01_lww_memtables_l0_reopen : forall m ops,
+  forallb mlfr_op ops = true -> puts_monotone ops = true ->
+  forall k v, get (run (init m) ops) k v = latest_at (writes ops) k v.
+Proof. exact lww_reopen. Qed.
+Print Assumptions C01_lww_memtables_l0_reopen.
